@@ -1,4 +1,4 @@
-import Unsized.MachineSiblings
+import Unsized.MachineObserve
 /-!
 # C01 — Unsized values behave like their owned models under any operation history
 
@@ -30,7 +30,7 @@ theorem load_inv (s : Shape) (v : Val) (hok : s.ok = true) (hwf : WF s v = true)
 FULL STATEMENT (`step_refines`): for every shape `s`, `WF` value, accessor stack, and EVERY op line, the
 machine step has the outcome (`ok ret` / `err class`) of `Spec.applyOp`, and on `ok v'`:
 `bytes' = encode s v'`, `len' = size s v'`, `WF s v'`. Proved below for all `Supported` (node kind, op)
-pairs — every op on `fixed`, `list`, `str`, `rem`, `struct`, `enum` nodes and `touch`/`replace`/`reset`
+pairs — every op on `fixed`, `list`, `set`, `map`, `str`, `rem`, `struct`, `enum` nodes and `touch`/`replace`/`reset`
 on every node kind, at ANY nesting depth below structs, enums, `UnsizedList`s and `UnsizedMap`s (the path
 induction `notify_plug` is complete). Missing: the container-local byte algebra of `set`/`map` (binary
 search vs `insKey`) and of `ulist`/`umap` insert/remove (offset-table memmove) — see notes/C01_machine.md.
@@ -61,6 +61,22 @@ theorem history_refines_partial (s : Shape) (v : Val) (hok : s.ok = true) (hwf :
     ∧ (runM s (load s v) cmds).1.levels = (runS s ⟨v, [[]]⟩ cmds).1.levels := by
   obtain ⟨h1, h2⟩ := run_inv s cmds ⟨v, [[]]⟩ (load s v) (load_inv s v hok hwf hsmall) (by simpa [load, State.init] using hh)
   exact ⟨h1, h2.bytes, h2.levels⟩
+
+/-- **What the observers see** in a state satisfying the invariant: the owned conversion
+(`UnsizedType::owned(&data[..len])`) is the model value, and every live accessor (any path that resolves
+in the model, in particular the paths of the live levels) is found by the machine exactly where the
+model says and `owned_from_ptr` of it is the model's sub-value. These are exactly the `owned=`,
+`shared=` (a fresh shared borrow read through get / get_mut / iterator API) and `live=` columns. -/
+theorem observables_agree (s : Shape) (hok : s.ok = true) (vs : VState) (ms : State) (inv : Inv s vs ms) :
+    decode s ms.mem.bytes = .ok (vs.val, size s vs.val)
+    ∧ (∀ mo, viewTop mo s ms.mem.bytes = .ok (vs.val, size s vs.val))
+    ∧ ∀ q t u, resolve s vs.val q = .ok (t, u) →
+        locate s q 0 ms.mem.bytes = .ok (t, offsetOf s vs.val q)
+        ∧ own t (ms.mem.bytes.drop (offsetOf s vs.val q)) = .ok u := by
+  refine ⟨by rw [inv.bytes]; exact owned_view s vs.val hok inv.good,
+    fun mo => by rw [inv.bytes]; exact shared_view mo s vs.val hok inv.good, fun q t u hq => ?_⟩
+  have F : Focus s vs.val q t u ms.mem := ⟨inv.good, hq, inv.bytes⟩
+  exact ⟨live_locate F, live_view F⟩
 
 /-- **Siblings are untouched**: an op that changed the sub-value at `c ++ st2 :: p` (to anything)
 leaves every sub-value at or below a sibling step `st1 ≠ st2` of any common prefix `c` unchanged. -/
